@@ -15,7 +15,7 @@ SPEC = dict(
           "non-trivial+distinct = distinct (len before, len after, zero-padded?, pattern) transitions"),
     assumptions=["R3 (ref.next_build) is the README's lexical-id successor; ids that are all 9s are the documented "
                  "maximum and are only required not to be 'bumped' to a smaller/equal value"],
-    required=["single_steps", "chain_steps", "expansion:4->5", "expansion:5->6", "expansion:6->7", "expansion:7->8",
+    required=["update_chains_with_own_line_left_to_bumpver", "single_steps", "chain_steps", "expansion:4->5", "expansion:5->6", "expansion:6->7", "expansion:7->8",
               "chain_steps_with_other_flags", "update_chain_steps", "update_chain_untagged_releases"],
     anchors=[("v2version", "_incr_numeric"), ("v2version", "parse_field_values_to_vinfo"), ("v2patterns", "_fmt_bld")],
     exhaustive={"quick": True, "thorough": True},
@@ -137,6 +137,11 @@ def run_update_chain(ctx, case):
     cfg = (f'[bumpver]\ncurrent_version = "{cur}"\nversion_pattern = "{pat}"\ncommit = true\ntag = true\npush = false\n'
            + (f'tag_scope = "{scope}"\n' if scope != "default" else "")
            + '\n[bumpver.file_patterns]\n"bumpver.toml" = [\'current_version = "{version}"\']\n')
+    if case["variant"] % 2 == 1:
+        # the config file lists itself for ANOTHER of its lines only; the current_version line is left to bumpver - the
+        # chain is read back from that line
+        cfg = f"# released as {cur} !\n" + cfg.replace('[\'current_version = "{version}"\']', '["released as {version} !"]')
+        ctx.count("update_chains_with_own_line_left_to_bumpver")
     d = harness.new_project({"bumpver.toml": cfg})
     fake = harness.FakeVCS(d, "git")
     tags = [cur]
